@@ -39,6 +39,11 @@ Next ==
           LET payload == [i \in 1..len |-> (i * 37 + len) % 256] IN
           v_case' = [kind |-> "wire", what |-> "pkt", sbn |-> s, esi |-> e, payload |-> payload,
                      bytes |-> PacketBytes(s, e, payload)]
+     \* long payloads (up to and beyond 2^16 octets): the case carries the RULE of the payload (octet i = (i*37 + len) mod 256,
+     \* the same as above) instead of its octets; the packet is the 4 header octets followed by exactly those len octets
+     \/ \E len \in {255, 256, 1500, 9000, 65535, 65536, 65537, 100000}, s \in {0, 255}, e \in {0, 16777215} :
+          v_case' = [kind |-> "wire", what |-> "pktlong", sbn |-> s, esi |-> e, len |-> len, total |-> 4 + len,
+                     head |-> PayloadIdBytes(s, e)]
 Spec == Init /\ [][Next]_vars
 
 RoundTrip ==
@@ -51,5 +56,6 @@ RoundTrip ==
   /\ v_case.what = "otibuf" => \A i \in 1..12 : v_case.reser[i] = (IF i = 6 THEN 0 ELSE v_case.buf[i])
   /\ v_case.what = "pkt" => /\ Len(v_case.bytes) = 4 + Len(v_case.payload)
                             /\ SubSeq(v_case.bytes, 5, Len(v_case.bytes)) = v_case.payload
+  /\ v_case.what = "pktlong" => PayloadIdOfBytes(v_case.head) = <<v_case.sbn, v_case.esi>> /\ v_case.total = v_case.len + 4
 Emit == v_case.what # "root" => PrintT(ToJson(v_case))
 =============================================================================
